@@ -34,6 +34,11 @@ type c16Tok struct {
 	perms   []string
 	expires time.Time
 	pad     string
+	// the remaining fields of a token: every one of them is state that has to survive
+	notBefore *time.Time
+	subgroups bool
+	issuedBy  *string
+	issuedAt  *time.Time
 }
 
 func freshRead(fn string) (map[string]*Stateful, error) {
@@ -75,7 +80,8 @@ func TestVerif_C16_StoreModel(t *testing.T) {
 		mkTok := func(name string, tk c16Tok) *Stateful {
 			e := tk.expires
 			u := tk.pad
-			return &Stateful{Token: name, Group: tk.group, Permissions: tk.perms, Expires: &e, Username: &u}
+			return &Stateful{Token: name, Group: tk.group, Permissions: tk.perms, Expires: &e, Username: &u,
+				NotBefore: tk.notBefore, IncludeSubgroups: tk.subgroups, IssuedBy: tk.issuedBy, IssuedAt: tk.issuedAt}
 		}
 		curTag := func() string {
 			_, etag, err := List("")
@@ -88,7 +94,33 @@ func TestVerif_C16_StoreModel(t *testing.T) {
 			off := rapid.SampledFrom([]time.Duration{-8 * 24 * time.Hour, -6 * 24 * time.Hour, -time.Hour, time.Hour, 30 * 24 * time.Hour}).Draw(t, "expiry")
 			return c16Tok{group: rapid.SampledFrom([]string{"g", "g", "h"}).Draw(t, "group"),
 				perms:   rapid.SliceOfNDistinct(rapid.SampledFrom([]string{"present", "message", "op", "token"}), 0, 3, func(s string) string { return s }).Draw(t, "perms"),
-				expires: now.Add(off).UTC().Truncate(time.Second), pad: strings.Repeat("p", rapid.IntRange(0, 40).Draw(t, "pad"))}
+				expires: now.Add(off).UTC().Truncate(time.Second), pad: strings.Repeat("p", rapid.IntRange(0, 40).Draw(t, "pad")),
+				notBefore: func() *time.Time {
+					switch rapid.IntRange(0, 3).Draw(t, "notBefore") {
+					case 0:
+						nb := now.Add(-time.Hour).UTC().Truncate(time.Second)
+						return &nb
+					case 1:
+						nb := now.Add(time.Hour).UTC().Truncate(time.Second)
+						return &nb
+					}
+					return nil
+				}(),
+				subgroups: rapid.Bool().Draw(t, "includeSubgroups"),
+				issuedBy: func() *string {
+					if rapid.Bool().Draw(t, "issuedBy") {
+						s := "issuer"
+						return &s
+					}
+					return nil
+				}(),
+				issuedAt: func() *time.Time {
+					if rapid.Bool().Draw(t, "issuedAt") {
+						ia := now.Add(-time.Minute).UTC().Truncate(time.Second)
+						return &ia
+					}
+					return nil
+				}()}
 		}
 		n := rapid.IntRange(2, 25).Draw(t, "nops")
 		for i := 0; i < n; i++ {
@@ -323,10 +355,28 @@ func TestVerif_C16_StoreModel(t *testing.T) {
 						t.Fatalf("token %s is %+v, the model says %+v", name, x, want)
 					}
 				}
+				// every field: the token the running store honours is the token a fresh reader finds in the file is the
+				// token that was stored
+				norm := func(x *Stateful) []byte {
+					y := *x
+					if y.Permissions == nil {
+						y.Permissions = []string{} // an empty list is an empty list
+					}
+					b, _ := json.Marshal(&y)
+					return b
+				}
+				jg, jf, jm := norm(got), norm(f), norm(mkTok(name, want))
+				if string(jg) != string(jf) || string(jg) != string(jm) {
+					t.Fatalf("C16 after %v: token %s\n in the running store: %s\n in the file:          %s\n as stored:            %s", log[max(0, len(log)-3):], name, jg, jf, jm)
+				}
 				// Check honours it only inside its window
 				_, _, cerr := got.Check("", want.group)
-				if (cerr == nil) != want.expires.After(time.Now()) {
-					t.Fatalf("token %s with expiry %v: Check error %v", name, want.expires, cerr)
+				inWindow := want.expires.After(time.Now()) && (want.notBefore == nil || !want.notBefore.After(time.Now()))
+				if (cerr == nil) != inWindow {
+					t.Fatalf("token %s with expiry %v and not-before %v: Check error %v", name, want.expires, want.notBefore, cerr)
+				}
+				if _, _, ferr := f.Check("", want.group); (ferr == nil) != (cerr == nil) {
+					t.Fatalf("C16: token %s: the running store says %v, a freshly started one says %v", name, cerr, ferr)
 				}
 			}
 			for _, gname := range []string{"g", "h"} {
